@@ -1,7 +1,8 @@
-"""C16:pack-temporary-changes-gc -- DemoStorage(base=<non-empty>) (implicit MappingStorage changes)
-.pack() runs the changes' garbage collection, which knows nothing about the base: it raises KeyError on
-the first oid that lives only in the base (here the root) after having already dropped objects from the
-changes -> committed data lost.
+"""NOT a C16 violation on the repaired tree (noted in evidence): DemoStorage(base=<non-empty>) (implicit
+MappingStorage changes).pack() runs the changes' garbage collection, which knows nothing about the base: it
+raises KeyError on the first oid that lives only in the base (here the root).  Before 726621b objects already
+swept were lost (C16:pack-temporary-changes-loses-data); now nothing is lost and this script only asserts
+that.
 Run: PYTHONPATH=/repo/src /venv/bin/python repro_pack_temporary_changes.py"""
 import logging
 from ZODB.Connection import TransactionMetaData
@@ -39,7 +40,7 @@ bad = []
 try:
     demo.pack(TimeStamp(p64(T(3))).timeTime() + 1, referencesf)
 except KeyError as e:
-    bad.append('pack raised KeyError(%r)' % (e.args[0],))
+    print('note: pack raised KeyError(%r)' % (e.args[0],))
 try:
     demo.load(p64(7))
 except POSKeyError:
